@@ -548,12 +548,40 @@ static void c15_print (const ProgSpec *ps, VhBuf *b, VhRng *r, int rendering)
   (void) print_literal;
 }
 
+/* Literal operands: every constant written in place (`addw d1, s1, 128`) instead of being declared.  The parser creates such
+ * a constant when it first meets it, so the API-built counterpart declares the constants in order of first use.
+ * Returns 0 when the spec has a constant no instruction uses (then there is no such text). */
+static int c15_literal_spec (const ProgSpec *ps, ProgSpec *out)
+{
+  int order[GEN_MAX_VARS], no = 0, slots[GEN_MAX_VARS], ns = 0, map[GEN_MAX_VARS], i, q, k, j;
+  for (q = 0; q < ps->ninsns; q++) { const RefOp *op = gen_op (&ps->insns[q]); for (k = 0; k < 4; k++) if (op->ssz[k]) { int v = ps->insns[q].src[k];
+      if (v >= 0 && ps->vars[v].kind == VK_CONST) { for (j = 0; j < no; j++) if (order[j] == v) break; if (j == no) order[no++] = v; } } }
+  for (i = 0; i < ps->nvars; i++) if (ps->vars[i].kind == VK_CONST) slots[ns++] = i;
+  if (ns == 0 || ns != no) return 0;
+  /* two constants of the same size and value are one literal: no text denotes the two-constant program */
+  for (i = 0; i < no; i++) for (j = 0; j < i; j++) if (ps->vars[order[i]].size == ps->vars[order[j]].size && ps->vars[order[i]].value == ps->vars[order[j]].value) return 0;
+  *out = *ps;
+  for (i = 0; i < ps->nvars; i++) map[i] = i;
+  for (j = 0; j < ns; j++) { out->vars[slots[j]] = ps->vars[order[j]]; map[order[j]] = slots[j]; }
+  for (q = 0; q < out->ninsns; q++) { const RefOp *op = gen_op (&out->insns[q]); for (k = 0; k < 4; k++) if (op->ssz[k] && out->insns[q].src[k] >= 0) out->insns[q].src[k] = map[ps->insns[q].src[k]]; }
+  return 1;
+}
+
 static void c15_one (ProgSpec *ps, long caseidx, VhRng *r)
 {
   OrcProgram *api = gen_build (ps); int k; char what[300];
   OrcBytecode *bc_api = orc_bytecode_from_program (api);
-  for (k = 0; k < 3; k++) {
+  for (k = 0; k < 4; k++) {
     VhBuf b = { 0 }; OrcProgram **progs = NULL; int np = 0, ne = 0, i; OrcParseError **errs = NULL;
+    if (k == 3) {
+      ProgSpec lit; GenPrintStyle st = { 0 };
+      if (!c15_literal_spec (ps, &lit)) break;
+      orc_bytecode_free (bc_api); orc_program_free (api);
+      api = gen_build (&lit); bc_api = orc_bytecode_from_program (api);
+      st.spaces_after_comma = vh_chance (r, 1, 2); st.hex = vh_chance (r, 1, 2); st.inline_consts = 1; st.tabs = vh_chance (r, 1, 4);
+      gen_print_orc (&lit, &b, &st, NULL);
+      vh_count ("c15.literal_renderings", 1);
+    } else
     c15_print (ps, &b, r, k == 0 ? 0 : 1 + (int) vh_randn (r, 7));
     orc_parse_code (b.p, &progs, &np, &errs, &ne);
     vh_count ("c15.renderings", 1);
@@ -563,7 +591,7 @@ static void c15_one (ProgSpec *ps, long caseidx, VhRng *r)
       vh_buf_jstr (&eb, b.p);
       spec_viol ("C15", "c15", "valid-text-rejected", what, ps, caseidx, eb.p); free (eb.p);
     } else {
-      if (compare_programs (api, progs[0], what, sizeof what, 1)) {
+      if (compare_programs (api, progs[0], what, sizeof what, k != 3 /* the names the parser invents for literals are not part of the program */)) {
         char sigt[140], *sp; VhBuf eb = { 0 };
         snprintf (sigt, sizeof sigt, "field|%s", what);
         for (sp = sigt; *sp; sp++) if (*sp >= '0' && *sp <= '9') *sp = 'N';
@@ -864,15 +892,20 @@ static void mode_c20 (void)
       if (si == 0 && k == 0 && (scen & 4)) snprintf (o->name, sizeof o->name, "add");    /* a name that is a prefix of built-ins */
       o->dest_size[0] = 2; o->src_size[0] = 2; o->src_size[1] = 2; o->emulateN = ext_emus[id & 7];
     }
-    snprintf (prefixes[si], sizeof prefixes[si], "ext%d", si);
+    /* set names: plain, extending a built-in set's name ("sys..."), and extending an earlier application set's name */
+    if ((scen & 8) && si == 0) snprintf (prefixes[si], sizeof prefixes[si], "sysx");
+    else if ((scen & 16) && si > 0) snprintf (prefixes[si], sizeof prefixes[si], "%.4s%c", prefixes[0], 'a' + si);
+    else snprintf (prefixes[si], sizeof prefixes[si], "ext%d", si);
     if (!orc_opcode_register_static (sets[si], prefixes[si])) { spec_viol ("C20", "c20", "register-failed", "orc_opcode_register_static returned 0", NULL, scen, NULL); }
     vh_count ("c20.sets_registered", 1); vh_count ("c20.opcodes_registered", (uint64_t) nops);
     /* rule sets for sse: first one without flag requirement, later ones requiring SSSE3 / a flag the default flags lack */
     {
       OrcOpcodeSet *os = orc_opcode_set_get (prefixes[si]); int nrs = 1 + (int) vh_randn (&r, 3), ri;
       if (!os) { spec_viol ("C20", "c20", "set-not-found", "orc_opcode_set_get does not find the registered set", NULL, scen, NULL); continue; }
+      if (os->opcodes != sets[si]) { snprintf (what, sizeof what, "orc_opcode_set_get(\"%s\") returns another set (its first opcode is %s)", prefixes[si], os->opcodes ? os->opcodes[0].name : "?"); spec_viol ("C20", "c20", "set-lookup-wrong", what, NULL, scen, NULL); }
       for (ri = 0; ri < nrs; ri++) {
-        unsigned req = ri == 0 ? 0 : ri == 1 ? ORC_TARGET_SSE_SSSE3 : ORC_TARGET_SSE_SSE5;   /* SSE5 is never in the default flags */
+        /* SSE5 is never in the default flags; a set that needs a satisfied and an unsatisfied flag must not apply either */
+        unsigned req = ri == 0 ? 0 : ri == 1 ? ORC_TARGET_SSE_SSSE3 : (scen & 2) ? (ORC_TARGET_SSE_SSE2 | ORC_TARGET_SSE_SSE5) : ORC_TARGET_SSE_SSE5;
         OrcRuleSet *rs = orc_rule_set_new (os, sse, req);
         if (!rs) { vh_count ("c20.rule_set_capacity_reached", 1); break; }
         for (k = 0; k < nops; k++) { int id = total_ops + k; if ((id & 7) == 0 || (id & 7) == 4) orc_rule_register (rs, sets[si][k].name, ext_rule_sse, (void *) (intptr_t) ((id << 4) | ri)); }
@@ -914,7 +947,10 @@ static void mode_c20 (void)
             if (ext_rule_log[id & 63] != want && ext_rule_log[id & 63] != 2) { snprintf (what, sizeof what, "extension opcode %s: rule set %d emitted the code, rule set %d (registered later, flags satisfied) should take precedence", sets[si][k].name, ext_rule_log[id & 63], want); spec_viol ("C20", "c20", "precedence", what, NULL, scen, NULL); } }
           if (ext_rule_log[id & 63] == 2) { spec_viol ("C20", "c20", "rule-with-unsatisfied-flags-used", "a rule set requiring a flag that is not in the target flags emitted code", NULL, scen, NULL); }
           vh_count ("c20.native_runs", 1);
-        } else if ((id & 7) == 0 || (id & 7) == 4) vh_count ("c20.rule_opcode_not_native", 1);
+        } else if ((id & 7) == 0 || (id & 7) == 4) {
+          vh_count ("c20.rule_opcode_not_native", 1);
+          if (nrs_registered[si] >= 1) { snprintf (what, sizeof what, "extension opcode %s has a registered sse rule whose flags are satisfied, but the program did not compile natively (result %#x)", sets[si][k].name, res); spec_viol ("C20", "c20", "rule-not-used", what, NULL, scen, NULL); }
+        }
         orc_executor_free (ex); runs++;
       } else if (strcmp (sets[si][k].name, "add")) vh_count ("c20.ext_program_fatal", 1);
       orc_program_free (p);
